@@ -80,7 +80,7 @@ def leapfrog_is_reversible(h, d, n, mass, bounded):
     h.eq("momentum returns negated", r2, -r0)
 
 
-@unit("C07", quick=[dict(d=2, n=1)], thorough=[dict(d=2, n=2)], families=1, floor_fork=(-1, 1))
+@unit("C07", quick=[dict(d=2, n=1)], families=1, floor_fork=(-1, 1))
 def bounded_matrix_mass_reversible(h, d, n):
     hmc, chain, bounds, eps, T, im, ev = _chain(h, d, "matrix", True, smooth=False)
     t0, r0 = _tr(h, d, bounds)
